@@ -161,6 +161,10 @@ def run(ix, R):
     absorption_weighting(ix, R)
     # ---- 4. mode switch
     switch_obligations(ix, R)
+    # a degenerate k-table only reproduces the cross-sections if both are interpolated in the same mode:
+    # a mode change must reach the k-table cache completely
+    from rules.common import cache_state_cleared
+    cache_state_cleared(ix, R, '4.clear.state')
 
 
 def switch_obligations(ix, R):
